@@ -27,6 +27,18 @@
 # with 1-4 elements - next to numbers chosen around its bounds, in a struct, a map or the family type C11Item, held
 # in any of the positions of WRAPPERS), and wherever page data has a list or a string, a good share of the paths put
 # an index on it on either side of its range (gen_index_path): below zero, in range, at / far beyond the length.
+#
+# COLLISIONS. The member table of a struct is keyed by lowerFirst(name) while Go keeps the names apart, so one struct
+# can declare two things that want the same key: an exported field Title and an unexported field title, an unexported
+# field holder and a method Holder(), an embedded type Inner and a field inner (or an embedded UNEXPORTED type inner and
+# an exported field Inner). The unexported one is never a member, whichever is declared first. Such structs are a
+# regular part of the data: CLASH_STRUCT_SHARE of all reflect.StructOf types declare unexported fields (struct_names:
+# the lower-camel twin of an exported field, a near miss, an unrelated name; after, before or between the exported
+# fields), the hand-written family of harness/c11_clash (TWINS["K"]: field pairs in both orders, getters with value and
+# pointer receivers, embedded types next to outer fields in both orders) occurs wherever a family type can,
+# CLASH_SHARE of the page data is built around one such struct (gen_clash_data, in any position of WRAPPERS),
+# CLASH_PATH_SHARE of the paths of a value that holds one aim at the collision (gen_clash_path), and the history kind
+# "clash_orders" renders the same colliding members in two or three declaration orders one after the other.
 import copy
 import json
 from common import *
@@ -35,6 +47,7 @@ from common import *
 # {"k":"nil"}  {"k":"str","v":bytes}  {"k":"int","kind":"int8",..,"v":n}  {"k":"float","v":n}  {"k":"bool","v":b}
 # {"k":"slice","et":T,"v":None|[node]}  {"k":"map","et":T,"v":None|[(key bytes,node)]}  {"k":"ptr","t":T,"v":None|node}
 # {"k":"iface","named":bool,"v":None|node}  {"k":"dstruct","f":[(Name,node)]}  {"k":"func","r":bytes}  {"k":"chan"}
+#    (a dstruct field whose name starts with a lower-case letter is an unexported field)
 # {"k":"Item"|"Base"|"Emb"|"EmbV","f":{Field:node}}
 # {"k":"twin","name":N,"var":V,"f":[(Name,node)]}   a struct look-alike; any other node may carry "tw":(N,V): a named
 #                                                    non-struct look-alike (type Tags []string) over that node's type
@@ -57,7 +70,9 @@ ABSENT_NAMES = [b"missing", b"zz", b"nope", b"hidden", b"secret", b"q", b"other"
 
 SIG = {"Label": b"func() string", "Double": b"func() int", "TagList": b"func() []string", "Total": b"func() int",
        "Follow": b"func() *main.C11Item", "IsBig": b"func() bool", "BaseNote": b"func() string",
-       "Amount": b"func() int", "Code": b"func() string", "Count": b"func() int", "Owner": b"func() *shop.Product"}
+       "Amount": b"func() int", "Code": b"func() string", "Count": b"func() int", "Owner": b"func() *shop.Product",
+       "Holder": b"func() string", "Caption": b"func() string", "Sum": b"func() int", "Kind": b"func() string",
+       "Tag": b"func() string", "Slug": b"func() string"}
 
 
 # ------------------------------------------------------------------ look-alike types (mirror of harness/c11_twins.go,
@@ -91,8 +106,32 @@ TWINS = {
             "Cart": {"struct": [["Owner", {"ptr": TW("one", "Product")}], ["Items", {"slice": TW("one", "Product")}], ["Note", "str"]]}},
     "two": {"Product": {"struct": [["Title", "str"], ["Qty", "int"], ["Sku", "str"]]},
             "Cart": {"struct": [["Note", "str"], ["Items", {"slice": TW("two", "Product")}]]}},
+    # package harness/c11_clash: members that collide after the lower-camel name mapping. "emb": embedded fields,
+    # "vm" / "pm": the methods of T (promoted ones included) / those that only *T has
+    "K": {"PairEU": {"struct": [["Title", "str"], ["Price", "int"], ["title", "str"], ["price", "int"]], "emb": [], "vm": [], "pm": []},
+          "PairUE": {"struct": [["title", "str"], ["price", "int"], ["Title", "str"], ["Price", "int"]], "emb": [], "vm": [], "pm": []},
+          "PairMix": {"struct": [["Title", "str"], ["title", {"slice": "str"}], ["name", {"ptr": "int"}], ["Name", "str"], ["Count", "int"],
+                                 ["cache", {"map": "int"}], ["count", "bool"]], "emb": [], "vm": [], "pm": []},
+          "PairDeep": {"struct": [["Item", TW("K", "PairEU")], ["item", {"ptr": TW("K", "PairUE")}], ["list", {"slice": "str"}],
+                                  ["List", {"slice": TW("K", "PairEU")}], ["Next", {"ptr": TW("K", "PairDeep")}], ["next", "str"],
+                                  ["Extra", "iface"], ["extra", "int"]], "emb": [], "vm": [], "pm": []},
+          "Getter": {"struct": [["holder", "str"], ["Limit", "int"], ["limit", "int"]], "emb": [], "vm": ["Holder"], "pm": []},
+          "GetterP": {"struct": [["Count", "int"], ["caption", "str"], ["sum", "int"]], "emb": [], "vm": ["Sum"], "pm": ["Caption"]},
+          "Inner": {"struct": [["Title", "str"], ["Code", "int"]], "emb": [], "vm": ["Kind"], "pm": []},
+          "inner": {"struct": [["Note", "str"], ["Rank", "int"]], "emb": [], "vm": ["Tag"], "pm": []},
+          "Meta": {"struct": [["Key", "str"]], "emb": [], "vm": [], "pm": ["Slug"]},
+          "OuterEU": {"struct": [["Inner", TW("K", "Inner")], ["inner", "str"], ["Title", "str"]], "emb": ["Inner"], "vm": ["Kind"], "pm": []},
+          "OuterUE": {"struct": [["inner", "str"], ["Inner", TW("K", "Inner")], ["title", "int"]], "emb": ["Inner"], "vm": ["Kind"], "pm": []},
+          "OuterX": {"struct": [["Inner", "str"], ["inner", TW("K", "inner")]], "emb": ["inner"], "vm": ["Tag"], "pm": []},
+          "OuterY": {"struct": [["inner", TW("K", "inner")], ["Inner", "str"], ["rank", "int"]], "emb": ["inner"], "vm": ["Tag"], "pm": []},
+          "OuterP": {"struct": [["Meta", {"ptr": TW("K", "Meta")}], ["meta", "int"], ["Key", "str"]], "emb": ["Meta"], "vm": ["Slug"], "pm": []},
+          "OuterQ": {"struct": [["meta", "str"], ["Meta", {"ptr": TW("K", "Meta")}], ["Note", "str"]], "emb": ["Meta"], "vm": ["Slug"], "pm": []}},
 }
 TWIN_GROUPS = [["A", "B", "C", "D"], ["one", "two"]]      # scopes whose types of one name share their String()
+CLASH_TYPES = ["PairEU", "PairUE", "PairMix", "PairDeep", "Getter", "GetterP", "OuterEU", "OuterUE", "OuterX", "OuterY", "OuterP", "OuterQ"]
+# the same members in the other declaration order (or with the other receiver)
+CLASH_COUNTERPARTS = [["PairEU", "PairUE", "PairMix"], ["OuterEU", "OuterUE"], ["OuterX", "OuterY"], ["OuterP", "OuterQ"],
+                      ["Getter", "GetterP"], ["PairDeep", "PairEU", "PairUE"]]
 
 
 def twin_field(n, name):
@@ -119,6 +158,26 @@ def twin_methods(n):
         items = twin_field(n, "Items")["v"]
         first = {"k": "ptr", "t": TW("two", "Product"), "v": copy.deepcopy(items[0]) if items else None}
         return [("Owner", first)], [("Count", I(0 if items is None else 2 * len(items)))]
+    if n["var"] == "K":
+        name = n["name"]
+        fs = lambda node, f: twin_field(node, f)["v"]
+        if name == "Getter":
+            return [("Holder", S(b"holder:" + fs(n, "holder")))], []
+        if name == "GetterP":
+            return [("Sum", I(fs(n, "sum") + fs(n, "Count")))], [("Caption", S(b"caption:" + fs(n, "caption")))]
+        if name == "Inner":
+            return [("Kind", S(b"kind:" + fs(n, "Title")))], []
+        if name == "inner":
+            return [("Tag", S(b"tag:" + fs(n, "Note")))], []
+        if name == "Meta":
+            return [], [("Slug", S(b"slug:" + fs(n, "Key")))]
+        if name in ("OuterEU", "OuterUE"):       # promoted from the embedded Inner
+            return [("Kind", S(b"kind:" + fs(twin_field(n, "Inner"), "Title")))], []
+        if name in ("OuterX", "OuterY"):         # promoted from the embedded unexported type
+            return [("Tag", S(b"tag:" + fs(twin_field(n, "inner"), "Note")))], []
+        if name in ("OuterP", "OuterQ"):         # promoted from the embedded pointer; Slug tolerates nil
+            m = twin_field(n, "Meta")["v"]
+            return [("Slug", S(b"nometa" if m is None else b"slug:" + fs(m, "Key")))], []
     return [], []
 
 
@@ -128,6 +187,11 @@ def S(s):
 
 def I(n, kind="int"):
     return {"k": "int", "kind": kind, "v": n}
+
+
+def is_exported(name):
+    """Go's rule on the ASCII names used here: the first letter is upper-case"""
+    return "A" <= name[:1] <= "Z"
 
 
 def ident_ok(k):
@@ -156,7 +220,8 @@ def ty(n):
         return dict(TW(var, name), under=TWINS[var][name]["under"])
     k = n["k"]
     if k == "twin":
-        return dict(TW(n["var"], n["name"]), struct=TWINS[n["var"]][n["name"]]["struct"])
+        desc = TWINS[n["var"]][n["name"]]
+        return dict(TW(n["var"], n["name"]), **{key: desc[key] for key in ("struct", "emb", "vm", "pm") if key in desc})
     if k == "str":
         return "str"
     if k == "int":
@@ -243,8 +308,20 @@ def fam_view(n):
                 [("BaseNote", S(b"note:" + fam_get(base, "Note", S(b""))["v"]))])
     if k == "twin":
         vm, pm = twin_methods(n)
-        return [(nm, nm[:1].isupper(), v) for nm, v in n["f"]], vm, pm
+        return [(nm, is_exported(nm), v) for nm, v in n["f"]], vm, pm
+    if k == "dstruct":
+        return [(nm, is_exported(nm), v) for nm, v in n["f"]], [], []
     raise ValueError(k)
+
+
+def embedded_names(n):
+    """names of the embedded fields of a struct node"""
+    k = n["k"]
+    if k in ("Emb", "EmbV"):
+        return ["C11Base"]
+    if k == "twin":
+        return TWINS[n["var"]][n["name"]].get("emb", [])
+    return []
 
 
 # ------------------------------------------------------------------ Gallina
@@ -277,7 +354,7 @@ def coq_gv(n):
     if k == "chan":
         return b"GChan"
     if k == "dstruct":
-        fs = [b"(" + cq_bytes(nm) + b", true, " + coq_gv(v) + b")" for nm, v in n["f"]]
+        fs = [b"(" + cq_bytes(nm) + b", " + cq_bool(is_exported(nm)) + b", " + coq_gv(v) + b")" for nm, v in n["f"]]
         return b"(GStruct " + cq_list(fs) + b" [] [])"
     fields, vm, pm = fam_view(n)
     fs = [b"(" + cq_bytes(nm) + b", " + cq_bool(ex) + b", " + coq_gv(v) + b")" for nm, ex, v in fields]
@@ -334,9 +411,11 @@ def gen_type(rng, depth):
     if r < 0.66:
         return {"ptr": gen_type(rng, depth - 1)}
     if r < 0.80:
-        names = rng.sample(FIELD_NAMES, rng.randint(0, 4))
-        return {"struct": [[nm, gen_type(rng, depth - 1)] for nm in names]}
+        return {"struct": [[nm, gen_type(rng, depth - 1)] for nm in struct_names(rng, 0, 4)]}
     if r < 0.90:
+        if rng.random() < 0.3:       # the hand-written family with colliding members
+            t = TW("K", rng.choice(CLASH_TYPES))
+            return t if rng.random() < 0.6 else {"ptr": t}
         return rng.choice(["Item", "Item", "Emb", "EmbV", "Base", {"ptr": "Item"}, {"ptr": "Emb"}, {"ptr": "EmbV"}, {"ptr": "Base"}])
     if r < 0.95:
         return "Labeler"
@@ -345,6 +424,156 @@ def gen_type(rng, depth):
     if r < 0.985:
         return "chan"
     return "iface"
+
+
+# ------------------------------------------------------------------ members that collide after the lower-camel mapping
+# The member table of a struct is keyed by lowerFirst(name), Go keeps the names apart: an exported field Title and an
+# unexported field title are two fields; so are an unexported field holder and a method Holder(), an embedded type
+# Inner and a field inner. Which of the two is declared first must not matter: the unexported one is never a member.
+
+CLASH_STRUCT_SHARE = 0.30   # share of the reflect.StructOf types (anywhere in the data) that declare unexported fields
+CLASH_SHARE = 0.15          # share of the page data that is built around a struct with colliding members
+CLASH_PATH_SHARE = 0.35     # where page data has such a struct: share of its paths that aim at the collision
+UNEXPORTED_EXTRA = ["hidden", "secret", "cache", "mu", "state", "_x", "raw"]
+
+
+def struct_names(rng, lo, hi, force=False):
+    """the field names of a reflect.StructOf type in declaration order. For CLASH_STRUCT_SHARE of the types (force:
+    always) some are unexported: the lower-camel spelling of an exported field of the same type (Title/title, ID/iD:
+    the two collide in the member table), its all-lower spelling (id, url: a near miss), or an unrelated name;
+    declared after the exported fields, before them, or anywhere between them"""
+    names = rng.sample(FIELD_NAMES, rng.randint(lo, hi))
+    if not names or not (force or rng.random() < CLASH_STRUCT_SHARE):
+        return names
+    extra = [lower_first(nm.encode()).decode() for nm in rng.sample(names, min(len(names), rng.choice([1, 1, 2, 3])))]
+    if rng.random() < 0.3:
+        extra.append(rng.choice(names).lower())
+    if rng.random() < 0.3:
+        extra.append(rng.choice(UNEXPORTED_EXTRA))
+    extra = [x for i, x in enumerate(extra) if x not in names and x not in extra[:i]]
+    order = rng.choice(["after", "after", "before", "mixed", "mixed"])
+    if order == "after":
+        return names + extra
+    if order == "before":
+        return extra + names
+    out = names + extra
+    rng.shuffle(out)
+    return out
+
+
+def struct_view(n):
+    """(fields [(name, exported, node)], value methods, pointer methods, embedded field names) of a struct node"""
+    fields, vm, pm = fam_view(n)
+    return fields, vm, pm, embedded_names(n)
+
+
+def is_struct(n):
+    return n is not None and n["k"] in ("dstruct", "twin", "Item", "Base", "Emb", "EmbV")
+
+
+def collision_of(sn, via_ptr, u):
+    """how the unexported field u of the struct node sn collides: (what, order)"""
+    fields, vm, pm, emb = struct_view(sn)
+    names = [nm for nm, _, _ in fields]
+    for nm, ex, _ in fields:
+        if ex and lower_first(nm.encode()).decode() == u:
+            what = "embedded_and_outer" if (nm in emb or u in emb) else "field_pair"
+            return what, "exported_first" if names.index(nm) < names.index(u) else "unexported_first"
+    for nm, _ in vm + pm:
+        if lower_first(nm.encode()).decode() == u:
+            inset = nm in [m for m, _ in vm] or via_ptr
+            return "field_and_method", "method_in_set" if inset else "method_of_pointer_only"
+    if any(ex and nm.lower() == u.lower() for nm, ex, _ in fields):
+        return "near_miss", "-"
+    return "lone_unexported", "-"
+
+
+def clash_sites(d):
+    """[(steps, struct node, held by pointer)]: the structs among the positions of d (d itself included) that
+    declare an unexported field"""
+    out = []
+    for steps, n in [([], d)] + positions(d):
+        sn, via_ptr = strip(n)
+        if is_struct(sn) and any(not ex for _, ex, _ in fam_view(sn)[0]):
+            out.append((steps, sn, via_ptr))
+    return out
+
+
+def gen_clash_path(rng, d, sites):
+    """a path that aims at a collision: the colliding name itself (it reaches the exported member, whatever the order
+    of declaration, and nothing when the unexported field stands alone), its capitalised spelling (never a member),
+    a neighbour of the collision in the same struct, or a step beyond an unexported composite; (steps, kind) or None"""
+    real = [(st, sn, vp) for st, sn, vp in sites
+            if any(not ex and collision_of(sn, vp, nm)[0] not in ("lone_unexported", "near_miss") for nm, ex, _ in fam_view(sn)[0])]
+    steps, sn, via_ptr = rng.choice(real if real and rng.random() < 0.8 else sites)
+    fields, vm, pm, emb = struct_view(sn)
+    unexp = [nm for nm, ex, _ in fields if not ex]
+    colliding = [u for u in unexp if collision_of(sn, via_ptr, u)[0] not in ("lone_unexported", "near_miss")]
+    u = rng.choice(colliding if colliding and rng.random() < 0.75 else unexp)
+    r = rng.random()
+    tail = []
+    if r < 0.55:
+        name, aim = u.encode(), "collision"
+    elif r < 0.67:
+        name, aim = upper_first(u.encode()), "capitalised"
+    elif r < 0.87:
+        others = [lower_first(nm.encode()) for nm, ex, _ in fields if ex] + [lower_first(nm.encode()) for nm, _ in vm + (pm if via_ptr else [])]
+        others = [x for x in others if x != u.encode()]
+        if not others:
+            return None
+        name, aim = rng.choice(others), "neighbour"
+    else:
+        name, aim = u.encode(), "beyond"
+        tail = rng.choice([[{"f": hx(rng.choice([b"name", b"title", b"x", b"k1"]))}], [{"i": 0}], [{"k": hx(b"k1")}],
+                           [{"f": hx(b"title")}, {"i": -1}]])
+    if not ident_ok(name) or (not steps and name in (b"global", b"range")):
+        return None
+    path = copy.deepcopy(steps) + [{"f": hx(name)}]
+    if tail:
+        path += tail
+    else:
+        end, _ = py_walk(d, path)
+        if end is not None and not is_leafish(end):     # go on to a leaf
+            more, _, end = random_walk(rng, end, rng.choice([1, 2, 3]), first=False)
+            path += more
+    return path, "clash:" + aim
+
+
+def path_collisions(d, steps):
+    """[(what, order)]: the steps of the path that name an unexported field of the struct they are applied to"""
+    out, cur = [], d
+    for st in steps:
+        if cur is None:
+            break
+        if "f" in st:
+            sn, via_ptr = strip(cur)
+            if is_struct(sn):
+                name = unhx(st["f"]).decode("latin-1")
+                if any(nm == name and not ex for nm, ex, _ in fam_view(sn)[0]):
+                    out.append(collision_of(sn, via_ptr, name))
+        if "i" in st:
+            st = {"i": idx_value(d, st)}
+        cur, _ = py_step(cur, st)
+    return out
+
+
+def gen_clash_struct(rng, depth):
+    """a struct value with colliding members: one of the hand-written family, or a reflect.StructOf type whose
+    colliding exported fields are mostly leaves"""
+    if rng.random() < 0.45:
+        return gen_value(rng, TW("K", rng.choice(CLASH_TYPES)), depth)
+    names = struct_names(rng, 1, 4, force=True)
+    leaf = lambda: rng.choice(["str", "str", "int", "bool", "float64", rng.choice(INT_KINDS)])
+    fs = [[nm, leaf() if rng.random() < 0.6 else gen_type(rng, depth - 1)] for nm in names]
+    return gen_value(rng, {"struct": fs}, depth)
+
+
+def gen_clash_data(rng, depth):
+    """page data around a struct with colliding members, held in any position of WRAPPERS"""
+    v = gen_clash_struct(rng, min(depth, 3))
+    w = rng.choice(WRAPPERS)
+    extra = [(kk, gen_value(rng, "iface", 1)) for kk in rng.sample([b"title", b"count", b"meta", b"x"], rng.choice([0, 0, 1, 2]))]
+    return wrap(rng, w, v, extra)
 
 
 def gen_int(rng, kind):
@@ -497,12 +726,14 @@ def gen_data(rng, tier):
     depth = rng.choice([1, 2, 2, 3, 3, 4] if tier == "quick" else [1, 2, 3, 3, 4, 4, 5])
     if rng.random() < INDEXED_SHARE:
         return gen_indexed_data(rng, depth)
+    if rng.random() < CLASH_SHARE / (1 - INDEXED_SHARE):
+        return gen_clash_data(rng, depth)
     r = rng.random()
     if r < 0.40:      # the usual page data: map[string]interface{}
         keys = with_case_pair(rng, rng.sample([k for k in MAP_KEYS if ident_ok(k)], rng.randint(1, 5)))
         return {"k": "map", "et": "iface", "v": [(kk, gen_value(rng, "iface", depth)) for kk in keys]}
     if r < 0.55:
-        names = rng.sample(FIELD_NAMES, rng.randint(1, 5))
+        names = struct_names(rng, 1, 5)
         return {"k": "dstruct", "f": [(nm, gen_value(rng, gen_type(rng, depth), depth)) for nm in names]}
     if r < 0.65:
         return gen_item(rng, depth)
@@ -549,7 +780,8 @@ def children(n):
             out.append(({"i": i}, v, "idx"))
     elif k == "dstruct":
         for nm, v in s["f"]:
-            out.append(({"f": hx(lower_first(nm.encode()))}, v, "field"))
+            if is_exported(nm):
+                out.append(({"f": hx(lower_first(nm.encode()))}, v, "field"))
     elif k in ("Item", "Base", "Emb", "EmbV", "twin"):
         fields, vm, pm = fam_view(s)
         for nm, ex, v in fields:
@@ -631,6 +863,13 @@ def break_path(rng, d, steps, tags):
         extra = rng.choice([{"f": hx(rng.choice(ABSENT_NAMES))}, {"k": hx(rng.choice([b"k", b"name"]))}, {"i": rng.choice([0, 2, -1])}])
         return steps + [extra], "beyond_end"
     if r < 0.66:          # unexported
+        at, _ = py_walk(d, steps[:i + 1])
+        sn, _ = strip(at) if at is not None else (None, False)
+        own = [nm for nm, ex, _ in fam_view(sn)[0] if not ex] if is_struct(sn) else []
+        if own and rng.random() < 0.7:      # an unexported field that is really there
+            nm = rng.choice(own).encode()
+            if ident_ok(nm):
+                return steps[:i + 1] + [{"f": hx(rng.choice([nm, nm, upper_first(nm)]))}] + ([{"f": hx(b"x")}] if rng.random() < 0.3 else []), "unexported"
         return steps[:i + 1] + [{"f": hx(rng.choice([b"hidden", b"secret", b"Hidden"]))}] + ([{"f": hx(b"x")}] if rng.random() < 0.3 else []), "unexported"
     if r < 0.76:          # undefined top-level name with a tail
         tail = rng.choice([[], [{"f": hx(b"x")}], [{"i": 0}], [{"i": -1}], [{"k": hx(b"k")}], [{"f": hx(b"a")}, {"f": hx(b"b")}], [{"f": hx(b"a")}, {"i": 1}, {"f": hx(b"c")}]])
@@ -698,9 +937,19 @@ def gen_paths(rng, d, tier):
     out, kinds = [], []
     seen = set()
     sites = index_sites(d)
+    csites = clash_sites(d)
     for _ in range(n * 4):
         if len(out) >= n:
             break
+        if csites and rng.random() < CLASH_PATH_SHARE:
+            cp = gen_clash_path(rng, d, csites)
+            if cp:
+                keep, raw = admit(rng, d, cp[0], rng.random() < 0.2)
+                if keep and (json.dumps(cp[0]), raw) not in seen:
+                    seen.add((json.dumps(cp[0]), raw))
+                    out.append({"steps": cp[0], "raw": raw})
+                    kinds.append(cp[1])
+            continue
         if sites[0] and rng.random() < INDEX_PATH_SHARE:
             ip = gen_index_path(rng, d, sites)
             if ip and (json.dumps(ip[0]), False) not in seen:
@@ -898,12 +1147,13 @@ ARRAY_STRING_MEMBERS = [b"length", b"indexOf", b"join", b"push", b"pop", b"shift
 
 # ------------------------------------------------------------------ histories: look-alike values one after the other
 
-SEQ_KINDS = [("twins_local", 0.28), ("twins_pkg", 0.14), ("permuted", 0.16), ("retyped", 0.14), ("resized", 0.12), ("mixed", 0.16)]
+SEQ_KINDS = [("twins_local", 0.24), ("twins_pkg", 0.12), ("permuted", 0.14), ("retyped", 0.12), ("resized", 0.10),
+             ("clash_orders", 0.14), ("mixed", 0.14)]
 WRAPPERS = ["key", "key", "ptrkey", "top", "slice", "field", "any", "typedmap", "ptrfield"]
 
 
-def struct_type(rng, depth, lo=2, hi=5):
-    return {"struct": [[nm, gen_type(rng, depth)] for nm in rng.sample(FIELD_NAMES, rng.randint(lo, hi))]}
+def struct_type(rng, depth, lo=2, hi=5, force=False):
+    return {"struct": [[nm, gen_type(rng, depth)] for nm in struct_names(rng, lo, hi, force)]}
 
 
 def alike_types(rng, kind, depth):
@@ -916,6 +1166,22 @@ def alike_types(rng, kind, depth):
         name = rng.choice(["Product", "Product", "Cart"])
         vs = rng.sample(TWIN_GROUPS[1], 2)
         return [TW(v, name) for v in vs]
+    if kind == "clash_orders":            # the same colliding members in two or three declaration orders
+        if rng.random() < 0.5:
+            grp = rng.choice(CLASH_COUNTERPARTS)
+            return [TW("K", nm) for nm in rng.sample(grp, min(k, len(grp)))]
+        fs = struct_type(rng, min(depth, 1), 1, 3, force=True)["struct"]
+        for f in fs:                       # the colliding exported fields are mostly leaves
+            if is_exported(f[0]) and rng.random() < 0.6:
+                f[1] = rng.choice(["str", "int", "bool"])
+        ex, un = [f for f in fs if is_exported(f[0])], [f for f in fs if not is_exported(f[0])]
+        orders = [ex + un, un + ex]
+        mixed = fs[:]
+        rng.shuffle(mixed)
+        orders.append(mixed)
+        if rng.random() < 0.5:
+            orders[:2] = orders[1::-1]
+        return [{"struct": copy.deepcopy(o)} for o in orders[:k]]
     t0 = struct_type(rng, depth)
     out = [t0]
     for _ in range(k - 1):
@@ -1001,6 +1267,12 @@ def gen_history(rng, tier):
             if steps and key not in seen:
                 seen.add(key)
                 pool.append((steps, "good_method" if "method" in tags else "good"))
+        csites = clash_sites(d)           # the colliding names of one value are asked of every value
+        for _ in range(rng.choice([1, 2, 3]) if csites else 0):
+            cp = gen_clash_path(rng, d, csites)
+            if cp and json.dumps(cp[0]) not in seen:
+                seen.add(json.dumps(cp[0]))
+                pool.append(cp)
     values = []
     for d in datas:
         paths, kinds = [], []
@@ -1012,7 +1284,7 @@ def gen_history(rng, tier):
             keep, raw = admit(rng, d, steps, rng.random() < 0.25)
             if keep:
                 paths.append({"steps": steps, "raw": raw})
-                kinds.append(kd if py_walk(d, steps)[0] is not None else "of_another_value")
+                kinds.append(kd if py_walk(d, steps)[0] is not None or kd.startswith("clash:") else "of_another_value")
         sites = index_sites(d)
         for _ in range(rng.choice([0, 1, 2]) if sites[0] else 0):      # indices on this value's own lists
             ip = gen_index_path(rng, d, sites)
@@ -1076,7 +1348,21 @@ class C11(Prop):
             "or a string, 45% of its paths put an index on it: below zero (the literal -1 .. -2^62, a negative number of "
             "the data, length - 1 of an empty or nil list), in range (and on through the element), at the length and "
             "far beyond it (.. 2^62), with and without further steps behind it (the coverage reports side x way of "
-            "writing x kind of target). Non-trivial = a single value with at least one "
+            "writing x kind of target). COLLISIONS: the member table of a struct is keyed by the lower-camel name while "
+            "Go keeps the names apart; 30% of all reflect.StructOf types (anywhere in the data) declare unexported "
+            "fields - the lower-camel twin of one of their exported fields (Title/title, ID/iD), a near miss (id, url) "
+            "or an unrelated name - after, before or between the exported fields; the hand-written family of "
+            "harness/c11_clash (exported/unexported field pairs in both orders and interleaved, nested; an unexported "
+            "field next to its getter with value and with pointer receiver; an embedded type next to an unexported "
+            "field of its lower-camel name, an embedded unexported type - whose methods are promoted - next to an "
+            "exported field, an embedded pointer, each in both orders; outer fields that shadow or resemble promoted "
+            "ones) occurs wherever a family type can; 15% of the page data is built around one struct with colliding "
+            "members, held in any of the positions above; where a value holds such a struct 35% of its paths aim at "
+            "the collision (the colliding name - which must print the exported member whatever the order -, its "
+            "capitalised spelling, a neighbour in the same struct, a step beyond an unexported composite); 14% of the "
+            "histories render the same colliding members in 2-3 declaration orders (all permutations over the run) "
+            "and ask every value the colliding names (the coverage reports the declared collisions and the paths "
+            "through them by kind x order). Non-trivial = a single value with at least one "
             "path of two or more steps that prints a non-empty leaf and at least one path that reaches nothing, or a "
             "history of at least two different types in which one and the same path prints different things for two "
             "values; distinct by SHA-1 of the case")
@@ -1084,7 +1370,11 @@ class C11(Prop):
         "Go's reflect package, fmt and big.Float formatting (integers below 10^10 print as plain digits), the JS front end "
         "(otto) and the template compiler for `= a.b[0]['k'].c`: covered by the correspondence, not by a theorem",
         "the Python description of the hand-written family (method sets, method results) that is emitted as the gv term; "
-        "the field lists of the look-alike types (TWINS) are compared with reflect by the harness on every use",
+        "the field lists of the look-alike types (TWINS) are compared with reflect by the harness on every use, and for "
+        "the types with colliding members (harness/c11_clash) so are the embedded fields and both method sets; the "
+        "results of their methods (Holder, Caption, Sum, Kind, Tag, Slug) are computed here from the field values",
+        "unexported fields of generated values are written through their address (reflect.NewAt + unsafe.Pointer); "
+        "reflect.StructOf accepts unexported fields that name a package (PkgPath \"main\")",
         "the integer a computed index denotes (xs[d.pos], xs[xs.length - 1], n - 2) is computed by the generator from "
         "the data tree (the Go int at that path, Go's len of that slice, plus the constant) and handed to the judge as "
         "`Idx true z`; that the template's own arithmetic (Number member, Array.length, __op__sub/__op__add) yields "
@@ -1096,6 +1386,10 @@ class C11(Prop):
         "a Go value is the tree reflect exposes: an embedded struct is a field named after its type plus the promoted "
         "methods; Go's promoted-field shorthand (e.note for e.C11Base.Note) is not a path of that tree (observed: prints nothing)",
         "names are ASCII; the first name of a path is not a registered template function, `global` or `range`",
+        "Go's own rules keep the exported members of one struct distinct under the lower-camel mapping (two exported "
+        "names differ beyond their first letter; a field and a method of one type cannot share a name; a shallower "
+        "field hides a promoted one), which is the NoDup hypothesis of C11_declaration_order; the unexported fields "
+        "are unrestricted",
         "an index is an integer within int64 (explored: -2^62 .. 2^62; numbers taken from the data within 2^50, where a "
         "pugjs Number - a float64 - is exact); an index in range on a string (a byte) is outside the domain, an index "
         "out of range on a string is inside (prints nothing)",
@@ -1219,7 +1513,10 @@ class C11(Prop):
              "top_kinds": {}, "path_lengths": {}, "histories": 0, "history_kinds": {}, "history_lengths": {},
              "values_in_histories": 0, "history_paths_of_another_value": 0, "histories_whose_page_data_types_share_a_name": {},
              "index_paths": 0, "index_side": {}, "index_written_as": {}, "index_on": {}, "index_below_zero_go_empty": 0,
-             "cases_with_an_index_below_zero": 0}
+             "cases_with_an_index_below_zero": 0,
+             "values_with_a_struct_that_declares_unexported_fields": 0, "unexported_fields_declared_in_reachable_structs": {},
+             "paths_that_name_an_unexported_field": 0, "paths_that_name_an_unexported_field_by_collision": {},
+             "paths_through_a_collision_go_nonempty": 0, "cases_with_a_path_through_a_collision": 0}
         for c, o in zip(cases, obss):
             vals, vobs = case_values(c), obs_values(o)
             if "seq" in c:
@@ -1234,9 +1531,28 @@ class C11(Prop):
                     nm = max(names, key=names.count)      # distinct types, one name
                     d["histories_whose_page_data_types_share_a_name"][nm] = d["histories_whose_page_data_types_share_a_name"].get(nm, 0) + 1
             d["cases_with_an_index_below_zero"] += any(k.startswith("index:below_zero") for v in vals for k in v.get("kinds") or [])
+            through = False
             for v, ob in zip(vals, vobs):
                 d["values"] += 1
                 t = self.tree_of(v)
+                cs = clash_sites(t)
+                d["values_with_a_struct_that_declares_unexported_fields"] += bool(cs)
+                for _, sn, via_ptr in cs:
+                    for nm, ex, _ in fam_view(sn)[0]:
+                        if not ex:
+                            key = "%s:%s" % collision_of(sn, via_ptr, nm)
+                            h = d["unexported_fields_declared_in_reachable_structs"]
+                            h[key] = h.get(key, 0) + 1
+                for p, r in zip(v["paths"], ob["paths"]) if cs else []:
+                    cols = path_collisions(t, p["steps"]) if steps_resolved(t, p["steps"]) else []
+                    if cols:
+                        d["paths_that_name_an_unexported_field"] += 1
+                        h = d["paths_that_name_an_unexported_field_by_collision"]
+                        for c in cols:
+                            h["%s:%s" % c] = h.get("%s:%s" % c, 0) + 1
+                        if any(c[0] in ("field_pair", "embedded_and_outer", "field_and_method") for c in cols):
+                            through = True
+                            d["paths_through_a_collision_go_nonempty"] += r["class"] == "ok" and bool(r.get("out"))
                 d["top_kinds"][t["k"]] = d["top_kinds"].get(t["k"], 0) + 1
                 for i, (p, r) in enumerate(zip(v["paths"], ob["paths"])):
                     d["paths"] += 1
@@ -1254,9 +1570,12 @@ class C11(Prop):
                             d[h][x] = d[h].get(x, 0) + 1
                         d["index_below_zero_go_empty"] += side == "below_zero" and r["class"] == "ok" and not r.get("out")
                         d["path_kinds"]["index"] = d["path_kinds"].get("index", 0) + 1
+                    elif kinds and kinds[i].startswith("clash:"):
+                        d["path_kinds"]["aims_at_a_collision"] = d["path_kinds"].get("aims_at_a_collision", 0) + 1
                     elif kinds:
                         d["path_kinds"][kinds[i]] = d["path_kinds"].get(kinds[i], 0) + 1
                         d["history_paths_of_another_value"] += kinds[i] == "of_another_value"
+            d["cases_with_a_path_through_a_collision"] += through
         return d
 
 
